@@ -176,6 +176,11 @@ def Prog.seq {α : Type} (F : File) : Prog α → Blk → α × Blk
   | .done a, c => (a, c)
   | .call cl k, c => (k (blockOf F (seqNext (chainOf F) c cl))).seq F (seqNext (chainOf F) c cl)
 
+/-- The calls the program makes when it gets the sequential blocks: the script with which it runs to its end. -/
+def Prog.calls {α : Type} (F : File) : Prog α → Blk → List Op
+  | .done _, _ => []
+  | .call cl k, c => cl.op :: (k (blockOf F (seqNext (chainOf F) c cl))).calls F (seqNext (chainOf F) c cl)
+
 /-- Any number of steps of the protocol, by either thread. -/
 inductive Path (cfg : Cfg) : State → State → Prop where
   | refl {s : State} : Path cfg s s
